@@ -288,6 +288,7 @@ func File(args []string) {
 	fs := flag.NewFlagSet("lexers file", flag.ExitOnError)
 	in := fs.String("in", "", "ndjson {lang, input}")
 	out := fs.String("out", "", "trace file")
+	family := fs.Bool("family", false, "run every entry point of the language's family, not only the named one")
 	fs.Parse(args)
 	w := tr.NewWriter(*out)
 	sum := summary{Suite: "lexers", Mode: "file"}
@@ -307,7 +308,26 @@ func File(args []string) {
 			b[i] = byte(v)
 		}
 		sum.Cases++
-		runAll(w, &sum, &tid, []string{c.Lang}, b, nil, seen)
+		langs := []string{c.Lang}
+		if *family {
+			fam := ""
+			if L := langByName(c.Lang); L != nil {
+				fam = L.Family
+			} else if strings.HasPrefix(c.Lang, "js.") {
+				fam = "js"
+			}
+			if fam == "html" && c.Lang != "html" {
+				langs = []string{c.Lang, "html"} // a template document: its own dialect and the plain lexer
+			} else if fam == "html" {
+				langs = []string{"html", familyLangs["html"][1+sum.Cases%6]} // the plain lexer and one dialect in turn
+			} else if fl, ok := familyLangs[fam]; ok {
+				langs = fl
+			}
+		}
+		if len(sum.Samples) < 2 && len(b) > 8 {
+			sum.Samples = append(sum.Samples, map[string]interface{}{"lang": c.Lang, "input": string(b)})
+		}
+		runAll(w, &sum, &tid, langs, b, nil, seen)
 	})
 	if err != nil {
 		fmt.Fprintln(os.Stderr, err)
